@@ -571,10 +571,16 @@ class _DropAnn(ast.NodeTransformer):
 def _static_elem(e: ast.AST) -> bool:
     if isinstance(e, (ast.Constant, ast.Name)):
         return True
+    if isinstance(e, ast.Lambda):
+        a = e.args
+        return not (a.defaults or a.kw_defaults or a.vararg or a.kwarg or a.kwonlyargs or a.posonlyargs) and not any(
+            isinstance(x, (ast.Lambda, ast.NamedExpr, ast.Yield, ast.YieldFrom, ast.Await)) for x in ast.walk(e.body))
     if isinstance(e, ast.Attribute):
         return _static_elem(e.value)
     if isinstance(e, (ast.Tuple, ast.List)):
         return all(_static_elem(x) for x in e.elts)
+    if isinstance(e, ast.UnaryOp) and isinstance(e.op, (ast.USub, ast.UAdd)):
+        return _static_elem(e.operand)
     return False
 
 
@@ -599,7 +605,27 @@ def _unroll_table_loops(tree: ast.Module, known: set) -> None:
             if not mutated:
                 tables[nm] = st.value
 
+    def next_to_loop(body):
+        """`x = next(E for T in TABLE if C)` over a new table: `for T in TABLE: if C: x = E; break  else: raise StopIteration`"""
+        for i, st in enumerate(list(body)):
+            if isinstance(st, ast.Assign) and len(st.targets) == 1 and isinstance(st.targets[0], ast.Name) and isinstance(st.value, ast.Call) \
+                    and isinstance(st.value.func, ast.Name) and st.value.func.id == "next" and len(st.value.args) == 1 and not st.value.keywords \
+                    and isinstance(st.value.args[0], ast.GeneratorExp) and len(st.value.args[0].generators) == 1:
+                g = st.value.args[0].generators[0]
+                if isinstance(g.iter, ast.Name) and g.iter.id in tables and not g.is_async:
+                    cond = g.ifs[0] if len(g.ifs) == 1 else (ast.BoolOp(op=ast.And(), values=list(g.ifs)) if g.ifs else ast.Constant(value=True))
+
+                    class St(ast.NodeTransformer):
+                        def visit_Name(self, n: ast.Name):
+                            return ast.copy_location(ast.Name(id=n.id, ctx=ast.Store()), n)
+                    asg = ast.copy_location(ast.Assign(targets=[st.targets[0]], value=st.value.args[0].elt, lineno=st.lineno), st)
+                    inner = ast.copy_location(ast.If(test=cond, body=[asg, ast.copy_location(ast.Break(), st)], orelse=[]), st)
+                    stop = ast.copy_location(ast.Raise(exc=ast.Call(func=ast.Name(id="StopIteration", ctx=ast.Load()), args=[], keywords=[]), cause=None), st)
+                    body[i] = ast.copy_location(ast.For(target=St().visit(copy.deepcopy(g.target)), iter=g.iter, body=[inner], orelse=[stop], lineno=st.lineno), st)
+                    ast.fix_missing_locations(body[i])
+
     def unroll(body):
+        next_to_loop(body)
         out = []
         for i, st in enumerate(body):
             for fld in ("body", "orelse", "finalbody"):
@@ -610,7 +636,8 @@ def _unroll_table_loops(tree: ast.Module, known: set) -> None:
                 for h in st.handlers:
                     h.body = unroll(h.body)
             if isinstance(st, ast.For) and isinstance(st.iter, ast.Name) and st.iter.id in tables and len(st.body) == 1 and isinstance(st.body[0], ast.If) \
-                    and not st.body[0].orelse and len(st.body[0].body) == 1 and isinstance(st.body[0].body[0], ast.Break) \
+                    and not st.body[0].orelse and st.body[0].body and isinstance(st.body[0].body[-1], ast.Break) \
+                    and not any(isinstance(x, (ast.Break, ast.Continue)) for b_ in st.body[0].body[:-1] for x in ast.walk(b_)) \
                     and not any(isinstance(x, (ast.Break, ast.Continue)) for o_ in st.orelse for x in ast.walk(o_)):
                 # the search idiom `for row in TABLE: if C(row): break  [else: E]`: the first matching row stays bound to the loop variables, E runs when
                 # none matches (without `else` the last row stays bound).  Unrolled into a chain of tests with the rows assigned in turn.
@@ -631,6 +658,9 @@ def _unroll_table_loops(tree: ast.Module, known: set) -> None:
                                     return ast.copy_location(copy.deepcopy(m_[n.id]), n)
                                 return n
                         test = S_().visit(copy.deepcopy(_st.body[0].test))  # evaluated right after the assignment: the row's values
+                        hit = [S_().visit(copy.deepcopy(b_)) for b_ in _st.body[0].body[:-1]] or [ast.copy_location(ast.Pass(), _st)]
+                        if len(_st.body[0].body) > 1:
+                            return [asg, ast.copy_location(ast.If(test=test, body=hit, orelse=rest), _st)]
                         return [asg, ast.copy_location(ast.If(test=test, body=[ast.copy_location(ast.Pass(), _st)], orelse=rest), _st)]
                     out.extend(build(0))
                     continue
@@ -663,9 +693,25 @@ def _unroll_table_loops(tree: ast.Module, known: set) -> None:
             out.append(st)
         return out
 
+    class Beta(ast.NodeTransformer):
+        """`(lambda a, b: E)(x, y)` with plain names / constants as arguments is E with them in place"""
+        def visit_Call(self, n: ast.Call):
+            self.generic_visit(n)
+            f = n.func
+            if isinstance(f, ast.Lambda) and not n.keywords and len(n.args) == len(f.args.args) and all(isinstance(a, (ast.Name, ast.Constant)) for a in n.args) \
+                    and not (f.args.defaults or f.args.vararg or f.args.kwarg or f.args.kwonlyargs):
+                m = {p.arg: a for p, a in zip(f.args.args, n.args)}
+
+                class S(ast.NodeTransformer):
+                    def visit_Name(self, x: ast.Name):
+                        return ast.copy_location(copy.deepcopy(m[x.id]), x) if x.id in m and isinstance(x.ctx, ast.Load) else x
+                return ast.copy_location(S().visit(copy.deepcopy(f.body)), n)
+            return n
     for fn in ast.walk(tree):
         if isinstance(fn, (ast.FunctionDef, ast.AsyncFunctionDef)):
             fn.body = unroll(fn.body)
+            if tables:
+                Beta().visit(fn)
 
 
 _ANY_COUNTER = [0]
